@@ -343,25 +343,22 @@ Qed.
 Lemma all_descriptors_wf : forallb wf_fmt all_descriptors = true.
 Proof. vm_compute. reflexivity. Qed.
 
-Lemma descriptor_wf name d : descriptor name = Some d -> wf_fmt d = true.
-Proof.
-  intros H. pose proof all_descriptors_wf as W. rewrite forallb_forall in W. apply W.
-  unfold descriptor in H.
-  repeat match type of H with
-         | match ?n with _ => _ end = _ => destruct n; try discriminate
-         end; inversion H; subst; cbn; tauto.
-Qed.
-
 (* F8: StrandForkRecord::from_payload_bytes sorts the writer heads it read, so a payload whose
    heads are in descending order is accepted and re-encodes to different bytes *)
 Definition fork_witness : bytes :=
   repeat 0 96 ++ le_bytes 8 7 ++ repeat 0 96 ++ le_bytes 8 2 ++ repeat 1 64 ++ repeat 0 64 ++ repeat 0 64 ++ [0].
 
+Definition fork_witness_value : fval :=
+  Eval vm_compute in (match strand_fork_dec fork_witness with Some v => v | None => XUnit end).
+
 Lemma strand_fork_refuted :
   exists b v, wf_bytes b = true /\ strand_fork_dec b = Some v /\ strand_fork_enc v <> Some b.
 Proof.
-  exists fork_witness. destruct (strand_fork_dec fork_witness) as [v|] eqn:E.
-  - exists v. split; [vm_compute; reflexivity|]. split; [reflexivity|].
-    revert E. vm_compute. intros E. inversion E. subst. discriminate.
-  - exfalso. revert E. vm_compute. discriminate.
+  exists fork_witness, fork_witness_value. split; [vm_compute; reflexivity|]. split; [vm_compute; reflexivity|].
+  intros H.
+  assert (K : match strand_fork_enc fork_witness_value with
+              | Some b' => if list_eq_dec N.eq_dec b' fork_witness then true else false
+              | None => false
+              end = false) by (vm_compute; reflexivity).
+  rewrite H in K. destruct (list_eq_dec N.eq_dec fork_witness fork_witness); [discriminate|contradiction].
 Qed.
